@@ -129,8 +129,9 @@ Proof. unfold wsum. now rewrite map_app, list_sum_app. Qed.
 
 Lemma wsum_ind_tev e p : wsum (ind e) p = count_ev e (tev p).
 Proof.
-  unfold wsum. induction p as [|i p IH]; cbn; [reflexivity|]. rewrite IH. unfold ind. destruct i; cbn; try reflexivity.
-  lia.
+  unfold wsum. induction p as [|i p IH]; [reflexivity|].
+  change (list_sum (map (ind e) (i :: p))) with (ind e i + list_sum (map (ind e) p)). rewrite IH.
+  unfold ind. destruct i; cbn; try reflexivity. lia.
 Qed.
 
 Lemma reply_in_handler n c : count_ev (EvR n) (tev (handler c)) = 0.
@@ -148,24 +149,32 @@ Qed.
 
 Lemma replies_in_dispatch n c : W (ind (EvR n)) (dispatch c) = if Nat.eqb (c_id c) n then 1 else 0.
 Proof.
-  unfold dispatch. rewrite W_app. cbn [W map list_sum wdeep ind tev count_ev].
-  destruct (c_kind c) eqn:K; try destruct (c_spawn c);
-    try (rewrite (W_flat _ _ (flat_body c)), wsum_ind_tev, replies_in_body; lia);
-    cbn [W map list_sum wdeep ind tev count_ev]; rewrite wsum_ind_tev, replies_in_body; lia.
+  unfold dispatch. rewrite W_app.
+  change (W (ind (EvR n)) [IRead L_root; IRUnlock L_root]) with 0. cbn [Nat.add].
+  assert (Hb : W (ind (EvR n)) (body c) = if Nat.eqb (c_id c) n then 1 else 0)
+    by (rewrite (W_flat _ _ (flat_body c)), wsum_ind_tev; apply replies_in_body).
+  assert (Hs : W (ind (EvR n)) [ISpawn c] = if Nat.eqb (c_id c) n then 1 else 0).
+  { change (W (ind (EvR n)) [ISpawn c]) with (0 + wsum (ind (EvR n)) (body c) + 0).
+    rewrite wsum_ind_tev, replies_in_body. lia. }
+  destruct (c_kind c); try destruct (c_spawn c); assumption.
 Qed.
 
 Definition ids_eq (n : nat) (calls : list call) : nat := list_sum (map (fun c => if Nat.eqb (c_id c) n then 1 else 0) calls).
 
 Lemma total_replies_init n calls : total (ind (EvR n)) (init calls) = ids_eq n calls.
 Proof.
-  rewrite total_init. cbn [ind tev count_ev]. unfold ids_eq. cbn. f_equal.
-  induction calls as [|c l IH]; cbn; [reflexivity|]. now rewrite replies_in_dispatch, IH.
+  rewrite total_init. change (ind (EvR n) IRecv) with 0. cbn [Nat.add]. unfold ids_eq. f_equal.
+  induction calls as [|c l IH]; [reflexivity|]. cbn [map]. now rewrite replies_in_dispatch, IH.
 Qed.
+
+Lemma list_sum_cons a l : list_sum (a :: l) = a + list_sum l.
+Proof. reflexivity. Qed.
 
 Lemma ids_eq_nodup n calls : NoDup (map c_id calls) -> ids_eq n calls = if memn n (map c_id calls) then 1 else 0.
 Proof.
-  unfold ids_eq, memn. induction calls as [|c l IH]; cbn; [reflexivity|]. intros Hnd. inversion Hnd as [|? ? Hx Hl]; subst.
-  rewrite IH by assumption. rewrite (Nat.eqb_sym n (c_id c)). destruct (Nat.eqb_spec (c_id c) n); cbn; [|reflexivity].
+  unfold ids_eq, memn. induction calls as [|c l IH]; [reflexivity|]. intros Hnd. cbn [map] in Hnd.
+  inversion Hnd as [|? ? Hx Hl]; subst. specialize (IH Hl). cbn [map existsb]. rewrite list_sum_cons, IH.
+  rewrite (Nat.eqb_sym n (c_id c)). destruct (Nat.eqb_spec (c_id c) n); cbn [orb]; [|reflexivity].
   subst n. destruct (existsb (Nat.eqb (c_id c)) (map c_id l)) eqn:E; [|reflexivity].
   exfalso. apply Hx. apply existsb_exists in E. destruct E as [x [Hin He]]. apply Nat.eqb_eq in He. now subst.
 Qed.
